@@ -22,7 +22,8 @@ RULE = ("seeded bootstrap samples of structured Scores (integer scores; tiny inp
         "in some class")
 TRUSTED = [
     "NumPy RNG contract (hypothesis draw_ok of the theorems): binomial(n,p) in [0,n], =0 if p=0, =n if p=1; vector "
-    "draws have the requested length, multiplicities >= 0, choice indices in range, distinct when replace=False",
+    "draws have the requested length, multiplicities >= 0, choice indices in range (also the scalar choice(n) of the "
+    "single-pass at-least-one correction), distinct when replace=False",
     "means used by C11_mean_parameters (draw_mean): E binomial(n,p)=n p, E poisson(lam)=lam, E #times an index is "
     "drawn by choice(n,size)=size/n; the expectation over NumPy's actual Mersenne-Twister stream is NOT proved",
     "np.random.choice(a, size, replace=False) == a[np.random.choice(len(a), size, replace=False)] (same stream; "
@@ -170,6 +171,10 @@ class _Recorder:
         def choice(a, size=None, replace=True, p=None):
             if p is not None:
                 raise RuntimeError("recorder: choice with p is not expected")
+            if np.ndim(a) == 0 and size is None:     # scalar draw: np.random.choice(n)
+                out = orig["choice"](a, None, replace)
+                hist.append(["choice1", int(a), int(out)])
+                return out
             if np.ndim(a) == 0:
                 out = orig["choice"](a, size, replace)
                 hist.append(["choice" if replace else "choice_norepl", int(a), int(np.size(out)) if size is None else int(size),
@@ -285,6 +290,8 @@ def draw_term(d):
         return f"(DChoice {cq.z(d[1])} {cq.z(d[2])} {cq.zlist(d[3])})"
     if k == "choice_norepl":
         return f"(DChoiceNoRepl {cq.z(d[1])} {cq.z(d[2])} {cq.zlist(d[3])})"
+    if k == "choice1":
+        return f"(DChoice1 {cq.z(d[1])} {cq.z(d[2])})"
     if k == "normal":
         return f"(DNormal {cq.z(d[1])} {cq.qlist(F(v) for v in d[2])})"
     raise ValueError(k)
@@ -369,7 +376,7 @@ def _stat_oracle(case, r):
                 fails.append(("C11/expected-size", f"replacement by_label: mean hard {cls} size {float(mean)} != {n}"))
         else:
             sd = math.sqrt(n / k)
-            if abs(float(mean) - n) > 8 * sd + 1e-9:
+            if abs(float(mean) - n) > 8 * sd + 0.1:   # 0.1: the at-least-one correction adds P(all zero) <= 1/16
                 fails.append(("C11/expected-size", f"{m} by_label over {k} seeds: mean hard {cls} size {float(mean):.3f}, "
                               f"source has {n} (sd of the mean {sd:.3f}): expected stratum size is not the source's"))
         if Fraction(r[ekey], k) != esrc:
@@ -424,6 +431,7 @@ def oracle(case, res):
         fails.append(("C11/strata", f"negative easy count ({r['ep']},{r['en']})"))
     for cls, src, smp in (("positive", pos, bpos), ("negative", neg, bneg)):
         if src and not smp:
+            # (was an open known finding until repo commit c42c88e; now an ordinary violation)
             kind = "C11/single-pass-empty-class" if m == "single_pass" else "C11/empty-class"
             fails.append((kind, f"source has {len(src)} scored {cls}s, the {m} sample has none"))
     total_src = len(pos) + len(neg) + case["ep"] + case["en"]
@@ -493,6 +501,8 @@ def nontrivial(case, res):
         if d[0] in ("choice", "choice_norepl") and len(set(d[3])) >= 2:
             return True
         if d[0] in ("binomvec", "poissonvec") and sum(1 for v in d[-1] if v > 0) >= 2:
+            return True
+        if d[0] == "choice1":
             return True
     return False
 
